@@ -6,6 +6,8 @@ import (
 	"math"
 	"reflect"
 	"strings"
+	"sync"
+	"sync/atomic"
 	"unicode/utf16"
 	"unicode/utf8"
 
@@ -23,19 +25,34 @@ import (
 // of JSON.stringify() if it may contain unicode characters. More cases could be added in the future.
 type importedString struct {
 	s string
+	// u is the result of scanning s (nil if s is ASCII-only). It is written once, by scan(), and may only be read after
+	// ensureScanned() has returned or isScanned() has returned true.
 	u unicodeString
 
-	scanned bool
+	// Strings are documented as goroutine-safe, so the lazy scan must be too.
+	scanOnce sync.Once
+	scanned  atomic.Bool
+}
+
+// newScannedImportedString creates an importedString for which the scan has already been done.
+func newScannedImportedString(s string, u unicodeString) *importedString {
+	i := &importedString{s: s, u: u}
+	i.scanned.Store(true)
+	return i
 }
 
 func (i *importedString) scan() {
 	i.u = unistring.Scan(i.s)
-	i.scanned = true
+	i.scanned.Store(true)
+}
+
+func (i *importedString) isScanned() bool {
+	return i.scanned.Load()
 }
 
 func (i *importedString) ensureScanned() {
-	if !i.scanned {
-		i.scan()
+	if !i.scanned.Load() {
+		i.scanOnce.Do(i.scan)
 	}
 }
 
@@ -109,9 +126,7 @@ func (i *importedString) Equals(other Value) bool {
 func (i *importedString) StrictEquals(other Value) bool {
 	switch otherStr := other.(type) {
 	case asciiString:
-		if i.u != nil {
-			return false
-		}
+		// No need to scan: a string with non-ASCII bytes cannot be equal to an ASCII one.
 		return i.s == string(otherStr)
 	case unicodeString:
 		i.ensureScanned()
@@ -174,11 +189,11 @@ func (i *importedString) Length() int {
 }
 
 func (i *importedString) Concat(v String) String {
-	if !i.scanned {
+	if !i.isScanned() {
 		if v, ok := v.(*importedString); ok {
 			// Joining the Go strings is only equivalent to joining the code units if the junction cannot
 			// complete a truncated UTF-8 sequence, i.e. the right side does not start with a continuation byte.
-			if !v.scanned && (len(v.s) == 0 || utf8.RuneStart(v.s[0])) {
+			if !v.isScanned() && (len(v.s) == 0 || utf8.RuneStart(v.s[0])) {
 				return &importedString{s: i.s + v.s}
 			}
 		}
@@ -207,7 +222,7 @@ func (i *importedString) CompareTo(v String) int {
 }
 
 func (i *importedString) Reader() io.RuneReader {
-	if i.scanned {
+	if i.isScanned() {
 		if i.u != nil {
 			return i.u.Reader()
 		}
@@ -253,7 +268,7 @@ func (s *stringUtf16Reader) ReadRune() (r rune, size int, err error) {
 }
 
 func (i *importedString) utf16Reader() utf16Reader {
-	if i.scanned {
+	if i.isScanned() {
 		if i.u != nil {
 			return i.u.utf16Reader()
 		}
@@ -265,7 +280,7 @@ func (i *importedString) utf16Reader() utf16Reader {
 }
 
 func (i *importedString) utf16RuneReader() io.RuneReader {
-	if i.scanned {
+	if i.isScanned() {
 		if i.u != nil {
 			return i.u.utf16RuneReader()
 		}
